@@ -12,7 +12,7 @@ open SmtpV SmtpV.Wire SmtpV.DataReader SmtpV.Spec
 theorem WF_buf {w : W} (h : WF w) (b : Bytes) : WF { w with buf := b } := ⟨h.ne, h.err⟩
 theorem WF_limit {w : W} (h : WF w) (n : Nat) : WF { w with limit := n } := ⟨h.ne, h.err⟩
 
-theorem WF_resume {w : W} (h : WF w) (n : Nat) : WF (Wire.resume w n) := by
+theorem WF_resume {w : W} (h : WF w) (n : Nat) (p : Bytes) : WF (Wire.resume w n p) := by
   unfold Wire.resume
   split
   · exact ⟨h.ne, h.err⟩
@@ -476,12 +476,12 @@ theorem wfs_copyChunk : ∀ (fuel : Nat) (s : S) (k n cap : Nat), WFS s → WFS 
 
 theorem wfs_setLimit (s : S) (n : Nat) (h : WFS s) : WFS (setLimit s n) := h.setW (WF_limit h.w n)
 
-theorem wfs_armLimit (s : S) (h : WFS s) : WFS (armLimit s) := h.setW (WF_resume h.w _)
+theorem wfs_armLimit (s : S) (h : WFS s) : WFS (armLimit s) := h.setW (WF_resume h.w _ _)
 
 theorem wfs_discardChunkN (s : S) (size? : Option Nat) (h : WFS s) : WFS (discardChunkN s size?) := by
   unfold discardChunkN
   split
-  · exact h.setW (WF_resume (discardN_wf _ _ _ (WF_limit h.w 0)) _)
+  · exact h.setW (WF_resume (discardN_wf _ _ _ (WF_limit h.w 0)) _ _)
   · exact h
 
 theorem sw_setBdatStatus (s : S) : SameWire s (setBdatStatus s) := by
